@@ -131,7 +131,7 @@ def rule_share(ctx):
     sites = [c for c in ast.walk(p.trees["client.py"]) if isinstance(c, ast.Call) and last_attr(c.func) in ("ThrottleStreamIO", "DataConnectionThrottleStreamIO") and kwarg(c, "throttles") is not None]
     ok = bool(sites) and thr_attr is not None
     for c in sites:
-        m = kv_of(kwarg(c, "throttles"))
+        m = kv_of(expand(p, kwarg(c, "throttles"), p.enclosing_function(c)))   # a map kept in a local first is still that literal (never mutated in between: kv_of needs a literal)
         ok = ok and m is not None and len(m) == 1 and all(src(v) == f"self.{thr_attr}" for v in m.values())
     ctx.ob("C15.SHARE", ci, f"the client limits control and data streams by its single throttle self.{thr_attr} ({len(sites)} stream sites)", ok and len(sites) >= 2,
            "a client stream is built without the client's throttle (or with a copy of it)", construct="share:client")
